@@ -22,7 +22,8 @@ from easynetwork.lowlevel._stream import BufferedStreamDataConsumer, StreamDataC
 ID = "C07"
 CLAIMED = True
 TITLE = "Receive buffering is bounded by the configured limit"
-REQUIRED_THEOREMS = ["C07_sep_copy_bound", "C07_sep_copy_overrun_raises", "C07_sep_copy_no_false_reject"]
+REQUIRED_THEOREMS = ["C07_sep_copy_bound", "C07_sep_copy_overrun_raises", "C07_sep_copy_no_false_reject",
+                     "C07_sep_buffered_bound", "C07_sep_buffered_overrun_raises", "C07_sep_buffered_no_false_reject"]
 LEVEL_TEXT = (
     "Machine-checked proof (Lean 4) that after every read the modelled copying consumer retains at most limit+|sep|-1 bytes, "
     "that unterminated data of limit+|sep| bytes yields a size error, and that a frame with payload <= limit is never rejected "
